@@ -34,6 +34,12 @@ STREAMS = {
     "knn": ("s_knn", {"want": ("arcs", "pdf")}),
     "cluster": ("s_knn", {"want": ("arcs", "pdf", "cluster")}),
     "knnpred": ("s_knnmodel", {"want": ("knnpred",)}),
+    "measures": ("s_measures", {}),
+    "stream": ("s_stream", {}),
+    "learn": ("s_learn", {}),
+    "persist": ("s_persist", {}),
+    "precomp": ("s_precomp", {}),
+    "c11": ("s_c11", {}),
     "select": ("s_knnmodel", {"want": ("select",)}),
 }
 
@@ -53,6 +59,12 @@ PROPS = {
     "C09": {"modules": [P + "C09"], "streams": ["fit", "semi", "knnpred"], "relevant": {"predict": [0], "knnq": None}},
     "C15": {"modules": [P + "C15"], "streams": ["semi"], "relevant": {"fit": [0, 1, 2, 3, 5, 6], "lawfit": None}},
     "C16": {"modules": [P + "C16"], "streams": ["select"], "relevant": {"selmax": None, "selcut": None}},
+    "C10": {"modules": [P + "C10"], "streams": ["precomp", "fit"], "relevant": {"fit": [0, 1, 2, 3, 5], "predict": [0]}},
+    "C11": {"modules": [], "streams": ["c11", "fit"], "relevant": {"fit": [0, 1, 2, 3, 5], "predict": [0]}},
+    "C17": {"modules": [], "streams": ["learn", "fit"], "relevant": {"swap": None, "best": None, "prune": None, "predict": [1]}},
+    "C18": {"modules": [], "streams": ["stream"]},
+    "C19": {"modules": [P + "C19"], "streams": ["persist"]},
+    "C20": {"modules": [], "streams": ["measures"]},
     "C12": {"modules": [P + "C12Arcs", P + "C12Pdf"], "streams": ["knn"]},
     "C13": {"modules": [P + "C13"], "streams": ["cluster"]},
     "C14": {"modules": [P + "C14", P + "C12Pdf"], "streams": ["knnpred"]},
@@ -164,7 +176,7 @@ def decide(pid, cfg, tier, seed, lean, results, known, t0):
         samples.append({"theorem": n, "axioms": lean["axioms"].get(n, [])})
     for r in results:
         samples += r.samples[:2]
-    level = cfg.get("level", "proof" if n_obl else "other")
+    level = cfg.get("level", "proof" if (n_obl and n_dis) else "other")
     cov = {
         "obligations": n_obl, "discharged": n_dis,
         "checker_cmd": "cd lean && lake build OpfVerif " + " ".join(cfg.get("modules", [])) +
